@@ -254,6 +254,33 @@ CHECKS["C08"] = dict(
     technique="Coq proof of the fast-path condition + differential rendering against Jinja (translation validation)", design_ref="§12",
 )
 
+CHECKS["C10"] = dict(
+    category="proof",
+    text=("PARTIAL. Coq theorem C10_protected_ranges_survive: for every set of patch buffers (all rules, all variants), every source and every "
+          "ascending list of protected ranges (template tags, expressions, comments, placeholder parameters), if no applied patch overlaps a "
+          "protected range then every protected range's text is in the fixed source unchanged and in order (patch merge + slicer/builder model of "
+          "C30; stated for the slicer without source-only slices). The hypothesis is evaluated on the real merged patch list of every run and "
+          "the conclusion is checked end to end: ordered (kind, text) of all non-literal raw slices before and after fixing, for generated "
+          "Jinja templates x 2 contexts x rule sets, python format strings and every placeholder style (JJ01 padding allowed inside tags). "
+          "Open finding F22 (LT02 source-level patch deleting a template expression)."),
+    note=("Trusted: Coq kernel, Model/Patch.v (C30 correspondence), harness/fixcheck.py. The filter that keeps rule-generated patches off "
+          "template code is validated per run, not modelled. No axioms."),
+    technique="Coq frame theorem over the patch-application model + per-run validation of its hypothesis and end-to-end template-part comparison",
+    design_ref="§14",
+)
+CHECKS["C11"] = dict(
+    category="proof",
+    text=("PARTIAL. Coq theorems C11_untouched_ranges_survive (any ascending ranges no applied patch overlaps are copied verbatim and in order), "
+          "C11_no_patches_identity, C11_newlines (reading's newline normalisation is idempotent and the identity on LF-only text), on top of "
+          "C30_apply_exact. On the implementation: the fixed text of real fixes (fixtures of every dialect, mutations, generated templates; "
+          "layout/core/all/capitalisation) must be the source with a disjoint subset of the reported patches substituted for exactly their "
+          "ranges; at byte level files in utf-8 / utf-8-sig / latin-1 / autodetected encodings, CRLF, > 8 KiB with late non-ASCII, and "
+          "undecodable bytes are fixed through lint_paths and every untouched line must be byte-identical, BOM kept, no-fix files keep bytes "
+          "and mtime. Open finding F10 (undecodable bytes written back as escape text)."),
+    note=("Trusted: Coq kernel, Model/Patch.v, the subset-splice oracle; codecs/chardet/rule bodies are exercised, not modelled. No axioms."),
+    technique="Coq frame theorem + splice oracle on real fixes + byte-level file comparison", design_ref="§15",
+)
+
 NOT_YET = "no check built yet in this round (planned: see DESIGN.md section for this property)"
 
 
